@@ -399,6 +399,32 @@ def _nontrivial(L):
     return ("exts=[]" not in L and "exts=" in L) or ("net=none" not in L and "net=" in L) or L.startswith("ok macsec") or "next=" in L
 
 
+_PKT = re.compile(r"link=(\S+) exts=\[(\S*)\] net=(\S+) tr=(\S+)")
+
+
+def oracle_prefix(ent, L, pw):
+    """(b), 'every layer in front of the fault': the instrumented strict reference decoder rejects
+    with `rej <e> @@ <packet decoded so far>`; every layer of that packet must be a layer of the lax
+    result, unchanged.  returns None | (why, class)"""
+    if not pw.startswith("rej "):
+        return None
+    e_txt, _, q_txt = pw[4:].partition(" @@ ")
+    if first_header_fault(ent, parse_err(e_txt)):
+        return None
+    if not L.startswith("ok"):
+        return ("(b) strict reference rejects behind the first header (%s) but lax is '%s'" % (e_txt, L), None)
+    mq, ml = _PKT.search(q_txt), _PKT.search(strictify(L)[0])
+    if not mq or not ml:
+        return ("(b) cannot parse '%s' / '%s'" % (q_txt, L), None)
+    ql, qx, qn, qt = mq.groups()
+    ll, lx, ln, lt = ml.groups()
+    qxs = [x for x in qx.split(";") if x]
+    lxs = [x for x in lx.split(";") if x]
+    if ql != ll or lxs[:len(qxs)] != qxs or qn not in ("none", ln) or qt not in ("none", lt):
+        return ("(b) layers in front of the fault %s are '%s' but lax returned '%s'" % (e_txt, q_txt, L), None)
+    return None
+
+
 def compare(ctx, cases, impl, model_lines):
     corr, orc = [], []
     hist = {}
@@ -407,9 +433,13 @@ def compare(ctx, cases, impl, model_lines):
     for i, c in enumerate(cases):
         ent, h = c.split()
         data = bytes.fromhex(h) if h != "-" else b""
-        m = w = None
+        m = w = lw = pw = None
         if model_lines is not None:
             ml = model_lines[i]
+            if " |P " in ml:
+                ml, pw = ml.rsplit(" |P ", 1)
+            if " |L " in ml:
+                ml, lw = ml.rsplit(" |L ", 1)
             if " | " in ml:
                 m, w = ml.rsplit(" | ", 1)
             else:
@@ -435,6 +465,10 @@ def compare(ctx, cases, impl, model_lines):
                 continue
             L, S = il.split(" || ")
             o = oracle(ent, data, L, S, w)
+            if not o and lw is not None and L != lw:
+                o = ("(ref) lax result differs from the lax reference decoder (Parse/LaxWire.v): impl '%s' reference '%s'" % (L, lw), None)
+            if not o and pw is not None:
+                o = oracle_prefix(ent, L, pw)
             if not o and hdrs:
                 LH, _, SH = hdrs.partition(" ## ")
                 o = oracle_headers(ent, data, LH, SH)
